@@ -10,6 +10,7 @@ import (
 	"context"
 	"errors"
 	"fmt"
+	"os"
 	"sort"
 	"strings"
 	"sync"
@@ -154,6 +155,10 @@ type vc02Op struct {
 
 var errVC02Panic = errors.New("verif: the call panicked (recovered by the harness)")
 
+// VERIF_C02_NORECOVER=1: let a panic of the code under test kill the test process (exercises the runner's crash path:
+// the per-case markers of vCaseStartKey name the cases that were in flight)
+var vc02NoRecover = os.Getenv("VERIF_C02_NORECOVER") != ""
+
 // ---------------------------------------------------------------- gate around css.batchingState
 
 // vc02Gate forwards every call to the real BatchingState; it records the worker's calls in one
@@ -226,6 +231,9 @@ func (g *vc02Gate) since() int64 { return int64(time.Since(g.t0) / time.Microsec
 // a panic inside the code under test on the worker goroutine would kill the whole test process; it is recovered here,
 // recorded (the case is then reported as a direct violation) and turned into an error so that the worker goes on
 func (g *vc02Gate) guarded(ev *vc02Ev, what string, f func() error) (err error) {
+	if vc02NoRecover {
+		return f()
+	}
 	defer func() {
 		if r := recover(); r != nil {
 			msg := fmt.Sprintf("%s: %v", what, r)
